@@ -92,6 +92,54 @@ fn build(tier: Tier) -> Vec<Case> {
             }
         }
     }
+    // every non-empty subset of {DEBUG, ERR, EXIT} with every assignment of handler bodies, over programs
+    // with failing commands at top level, in functions, subshells, loops and ERR-exempt positions
+    const BODIES: &[(&str, &str)] = &[("ok", ""), ("fails", "; false"), ("func-fails", "; hfail"), ("subshell-fails", "; (exit 2)")];
+    const PROGS: &[(&str, &str)] = &[
+        ("top", "vfalse\necho \"after=$?\""),
+        ("in-func", "f() { vfalse; echo \"in=$?\"; return 2; }\nf\necho \"after=$?\""),
+        ("subshell-then-exit", "(exit 3)\necho \"after=$?\"\nexit 4"),
+        ("exempt-positions", "vfalse | vtrue; echo \"after=$?\"\n! vfalse; echo \"after=$?\"\nif vfalse; then :; fi; echo \"after=$?\"\nvfalse || echo \"after=$?\""),
+        ("in-loop", "for i in 1 2; do vfalse; done\necho \"after=$?\""),
+    ];
+    const OPTS: &[(&str, &str)] = &[("none", ""), ("errtrace", "set -E\n"), ("errexit", "set -e\n"), ("errexit+errtrace", "set -eE\n")];
+    let kinds = ["DEBUG", "ERR", "EXIT"];
+    // assignment: per kind, 0 = not set, 1.. = body index + 1
+    for code in 1..2 * 5 * 5usize {
+        // DEBUG is either absent or a silent, succeeding handler (how often DEBUG fires, and what a failing
+        // DEBUG handler does, is outside this property and differs between the shells)
+        let sel = [code % 2, (code / 2) % 5, code / 10];
+        let mut traps = String::new();
+        let mut tset = vec![];
+        let mut tbodies = vec![];
+        for (k, kind) in kinds.iter().enumerate() {
+            if sel[k] == 0 {
+                continue;
+            }
+            let (bn, bs) = BODIES[sel[k] - 1];
+            let marker = match *kind {
+                "DEBUG" => "dbg=1".to_string(), // silent: how often DEBUG fires is not part of this property
+                "ERR" => "echo \"E:$?\"".to_string(),
+                _ => "echo \"T:$?\"".to_string(),
+            };
+            traps.push_str(&format!("trap '{marker}{bs}' {kind}\n"));
+            tset.push(*kind);
+            tbodies.push(format!("has:{kind}"));
+            if *kind != "DEBUG" {
+                tbodies.push(format!("body:{kind}={bn}"));
+            }
+        }
+        for (pn, prog) in PROGS {
+            for (on, opt) in OPTS {
+                if tier == Tier::Quick && *on == "errexit+errtrace" && tset.len() < 3 {
+                    continue;
+                }
+                let mut tags = vec![format!("trapset:{}", tset.join("+")), format!("prog:{pn}"), format!("opts:{on}")];
+                tags.extend(tbodies.iter().cloned());
+                out.push(Case { script: format!("hfail() {{ return 3; }}\n{opt}{traps}{prog}\n"), tags, expect_markers: Some(if sel[2] != 0 { 1 } else { 0 }), handler_exits: false });
+            }
+        }
+    }
     // ERR/EXIT handlers leave $? of the interrupted flow unchanged; handlers do not re-enter themselves
     for (n, s) in [
         ("err-preserves-status", "trap 'echo \"E:$?\"; true' ERR\nvexit 3\necho \"after=$?\"\nvfalse\necho \"after=$?\"\n"),
@@ -122,7 +170,7 @@ pub fn run(tier: Tier, replay: Option<Value>) -> ! {
         let is_exec = |c: &Case| c.script.contains("exec vemit");
         let (brush_out, idx): (Vec<(String, i64, Option<String>)>, Vec<usize>) = if fe == "stdin" {
             // real binary; at the quick tier only the plain handler
-            let idx: Vec<usize> = (0..cases.len()).filter(|i| tier == Tier::Thorough || cases[*i].tags.iter().any(|t| t == "handler:plain" || t.starts_with("special:"))).collect();
+            let idx: Vec<usize> = (0..cases.len()).filter(|i| tier == Tier::Thorough || cases[*i].tags.iter().any(|t| t == "handler:plain" || t.starts_with("special:") || t.starts_with("trapset:"))).collect();
             let specs: Vec<procs::ProcSpec> = idx
                 .iter()
                 .map(|i| {
@@ -197,7 +245,7 @@ pub fn run(tier: Tier, replay: Option<Value>) -> ! {
             }
             if let (Some(&m), false) = (marker_idx.first(), in_subshell_trap) {
                 // after all other output: nothing but the handler's own lines may follow
-                let later: Vec<&&str> = lines[m + 1..].iter().filter(|l| !(l.starts_with("H:") || **l == "E" || **l == "SECOND")).collect();
+                let later: Vec<&&str> = lines[m + 1..].iter().filter(|l| !(l.starts_with("H:") || **l == "E" || l.starts_with("E:") || **l == "SECOND")).collect();
                 if !later.is_empty() {
                     let mut t = tags.clone();
                     t.push("marker-not-last".into());
@@ -232,7 +280,7 @@ pub fn run(tier: Tier, replay: Option<Value>) -> ! {
         }
     }
     rep.rule = format!(
-        "all combinations of {} termination paths x {} nesting contexts x {} trap life-cycles x {} handler kinds (quick: non-plain handlers/life-cycles only in the plain, function and subshell contexts) + {} special scripts, on the file and -c front-ends (in-process public entry points) and stdin (real binary); distinct = (front-end, path, context, life-cycle, handler)",
+        "all combinations of {} termination paths x {} nesting contexts x {} trap life-cycles x {} handler kinds (quick: non-plain handlers/life-cycles only in the plain, function and subshell contexts) + every non-empty subset of {{DEBUG, ERR, EXIT}} x every assignment of 4 ERR/EXIT handler bodies (ok, failing command, failing function, failing subshell; DEBUG silent) x 5 programs x 4 option sets (each handler must not re-enter itself, EXIT exactly once) + {} special scripts, on the file and -c front-ends (in-process public entry points) and stdin (real binary); distinct = (front-end, path, context, life-cycle, handler)",
         PATHS.len(),
         CONTEXTS.len(),
         LIFECYCLES.len(),
